@@ -15,30 +15,37 @@ def supStep (G : GLang) (c : GCfg) (root : Node) (cur : Nat) (g : GState) (s : T
   | .error e => .error e
   | .ok (g, sn) => .ok (emitSup c root cur g sn)
 
-/-- the triples emitted for the node's own type node `tn` -/
-def emitOwn (G : GLang) (c : GCfg) (root : Node) (cur : Nat) (ty : Term) (g : GState) (tn : Node) : GState :=
+/-- the triples emitted for the node's own type node `tn` (`ov`: the caller's decision whether the type counts as
+canonical, as in `annotateType`) -/
+def emitOwn (G : GLang) (c : GCfg) (root : Node) (cur : Nat) (ty : Term) (g : GState) (tn : Node)
+    (ov : Option Bool := none) : GState :=
   let g := g.add (.b cur, .tf "type", tn)
-  let g := if c.withSupertypes && inCanon G ty then g.add (.b cur, .tf "subtypeOf", tn) else g
+  let g := if c.withSupertypes && ov.getD (inCanon G ty) then g.add (.b cur, .tf "subtypeOf", tn) else g
   if c.withMembership then g.add (root, .tf "containsType", tn) else g
 
 /-- `annotateType` where the supertypes are iterated in the order of the given list -/
-def annotateTypeWith (G : GLang) (c : GCfg) (g : GState) (root : Node) (cur : Nat) (ty : Term) (sups : List Ty) :
-    Except GErr GState :=
+def annotateTypeWith (G : GLang) (c : GCfg) (g : GState) (root : Node) (cur : Nat) (ty : Term) (sups : List Ty)
+    (ov : Option Bool := none) : Except GErr GState :=
   match addType G c typeFuel g ty with
   | .error e => .error e
   | .ok (g, tn) =>
-    let g := emitOwn G c root cur ty g tn
+    let g := emitOwn G c root cur ty g tn ov
     match ty with
     | .var _ => .ok g
-    | .app _ _ => if inCanon G ty then sups.foldlM (supStep G c root cur) g else .ok g
+    | .app _ _ => if ov.getD (inCanon G ty) then sups.foldlM (supStep G c root cur) g else .ok g
 
 /-- the supertypes `annotateType` iterates over -/
 def supsOf (G : GLang) (ty : Term) : List Ty :=
   dedupTy (langSucc G.types G.cfg G.canon (G.canon.length + 2) true ty.generalize true)
 
-theorem annotateType_eq (G : GLang) (c : GCfg) (g : GState) (root : Node) (cur : Nat) (ty : Term) (mf : Bool) :
-    annotateType G c g root cur ty mf = annotateTypeWith G c g root cur ty (supsOf G ty) := by
+theorem annotateType_eq_ov (G : GLang) (c : GCfg) (g : GState) (root : Node) (cur : Nat) (ty : Term) (mf : Bool)
+    (ov : Option Bool) :
+    annotateType G c g root cur ty mf ov = annotateTypeWith G c g root cur ty (supsOf G ty) ov := by
   rfl
+
+theorem annotateType_eq (G : GLang) (c : GCfg) (g : GState) (root : Node) (cur : Nat) (ty : Term) (mf : Bool) :
+    annotateType G c g root cur ty mf = annotateTypeWith G c g root cur ty (supsOf G ty) :=
+  annotateType_eq_ov G c g root cur ty mf none
 
 /-! ## states that differ in their triples only -/
 
@@ -86,16 +93,16 @@ theorem mem_emitSup {c : GCfg} {root : Node} {cur : Nat} {g : GState} {sn : Node
   unfold emitSup
   simp only [mem_iteAdd, or_assoc]
 
-theorem emitOwn_sameBut (G : GLang) (c : GCfg) (root : Node) (cur : Nat) (ty : Term) (g : GState) (tn : Node) :
-    SameBut g (emitOwn G c root cur ty g tn) := by
+theorem emitOwn_sameBut (G : GLang) (c : GCfg) (root : Node) (cur : Nat) (ty : Term) (g : GState) (tn : Node)
+    {ov : Option Bool} : SameBut g (emitOwn G c root cur ty g tn ov) := by
   unfold emitOwn
   exact .trans (.add _ _) (.trans (.iteAdd _ _ _) (.iteAdd _ _ _))
 
 theorem mem_emitOwn {G : GLang} {c : GCfg} {root : Node} {cur : Nat} {ty : Term} {g : GState} {tn : Node}
-    {t : Triple} :
-    t ∈ (emitOwn G c root cur ty g tn).triples ↔
+    {ov : Option Bool} {t : Triple} :
+    t ∈ (emitOwn G c root cur ty g tn ov).triples ↔
       (t ∈ g.triples ∨ t = (.b cur, .tf "type", tn) ∨
-        ((c.withSupertypes && inCanon G ty) = true ∧ t = (.b cur, .tf "subtypeOf", tn)) ∨
+        ((c.withSupertypes && ov.getD (inCanon G ty)) = true ∧ t = (.b cur, .tf "subtypeOf", tn)) ∨
         (c.withMembership = true ∧ t = (root, .tf "containsType", tn))) := by
   unfold emitOwn
   simp only [mem_iteAdd, mem_add, or_assoc]
@@ -177,11 +184,11 @@ theorem SameBut.of_common {g g1 g2 : GState} (h1 : SameBut g g1) (h2 : SameBut g
 /-- **order independence of `annotateType`**: if the supertypes are registered before the call, iterating them in
 another order (any list with the same members) succeeds as well and yields a state with the same set of triples
 that agrees in every other component -/
-theorem annotateTypeWith_perm (G : GLang) (c : GCfg) (g : GState) (root : Node) (cur : Nat) (ty : Term)
-    (sups1 sups2 : List Ty) (hsame : ∀ s, s ∈ sups1 ↔ s ∈ sups2)
+theorem annotateTypeWith_perm_ov (G : GLang) (c : GCfg) (g : GState) (root : Node) (cur : Nat) (ty : Term)
+    (sups1 sups2 : List Ty) (ov : Option Bool) (hsame : ∀ s, s ∈ sups1 ↔ s ∈ sups2)
     (hreg : ∀ s ∈ sups1, ∃ n, lookupType g.typeNodes s.toTerm = some n) (g1 : GState)
-    (h : annotateTypeWith G c g root cur ty sups1 = .ok g1) :
-    ∃ g2, annotateTypeWith G c g root cur ty sups2 = .ok g2 ∧ SameBut g1 g2 ∧
+    (h : annotateTypeWith G c g root cur ty sups1 ov = .ok g1) :
+    ∃ g2, annotateTypeWith G c g root cur ty sups2 ov = .ok g2 ∧ SameBut g1 g2 ∧
       ∀ t, t ∈ g1.triples ↔ t ∈ g2.triples := by
   unfold annotateTypeWith at h ⊢
   cases ha : addType G c typeFuel g ty with
@@ -194,10 +201,10 @@ theorem annotateTypeWith_perm (G : GLang) (c : GCfg) (g : GState) (root : Node) 
     | var v => exact ⟨g1, h, .refl g1, fun _ => Iff.rfl⟩
     | app o args =>
       simp only [] at h ⊢
-      by_cases hc : inCanon G (.app o args) = true
+      by_cases hc : ov.getD (inCanon G (.app o args)) = true
       · rw [if_pos hc] at h ⊢
         have hreg' : ∀ s ∈ sups1, ∃ n,
-            lookupType (emitOwn G c root cur (.app o args) ga tn).typeNodes s.toTerm = some n := by
+            lookupType (emitOwn G c root cur (.app o args) ga tn ov).typeNodes s.toTerm = some n := by
           intro s hs
           obtain ⟨n, hn⟩ := hreg s hs
           rw [(emitOwn_sameBut G c root cur _ ga tn).typeNodes]
@@ -208,5 +215,13 @@ theorem annotateTypeWith_perm (G : GLang) (c : GCfg) (g : GState) (root : Node) 
         exact ⟨q2, e2, b1.of_common b2, hm⟩
       · rw [if_neg hc] at h ⊢
         exact ⟨g1, h, .refl g1, fun _ => Iff.rfl⟩
+
+theorem annotateTypeWith_perm (G : GLang) (c : GCfg) (g : GState) (root : Node) (cur : Nat) (ty : Term)
+    (sups1 sups2 : List Ty) (hsame : ∀ s, s ∈ sups1 ↔ s ∈ sups2)
+    (hreg : ∀ s ∈ sups1, ∃ n, lookupType g.typeNodes s.toTerm = some n) (g1 : GState)
+    (h : annotateTypeWith G c g root cur ty sups1 = .ok g1) :
+    ∃ g2, annotateTypeWith G c g root cur ty sups2 = .ok g2 ∧ SameBut g1 g2 ∧
+      ∀ t, t ∈ g1.triples ↔ t ∈ g2.triples :=
+  annotateTypeWith_perm_ov G c g root cur ty sups1 sups2 none hsame hreg g1 h
 
 end Tfv
